@@ -7,7 +7,7 @@
    thread runs the submission o.  [quiescent s]: no step is enabled.  [tiers_empty s]: rings, central queue and steal rings are empty.
    Tie: lockstep on the real PoolWakeState / EpochWaiter + deterministic end-to-end replays on a real ThreadPool (props/C07.py). *)
 From Coq Require Import ZArith List Bool Lia.
-From DV Require Import Base.MachInt Base.Sched Model.WakeModel Model.WakeCheck Model.C07Check Proofs.WakeLemmas Proofs.C07Proofs.
+From DV Require Import Base.MachInt Base.Sched Model.WakeModel Model.WakeCheck Model.C07Check Proofs.WakeLemmas Proofs.C07Proofs Proofs.C07RingProofs.
 Import ListNotations.
 Local Open Scope Z_scope.
 
@@ -79,12 +79,26 @@ Theorem C07_central_invariant : forall c, (0 < c_gs c)%nat -> (0 < c_n c)%nat ->
 Proof. exact central_invariant. Qed.
 Print Assumptions C07_central_invariant.
 
-(* NOT proved (stated for the record; exercised by the end-to-end controls and the lockstep cases only): the ring fast path when the
-   count covers every affected group completely. *)
-Definition C07_ring_full_groups_statement : Prop :=
-  forall c e k, (0 < c_gs c)%nat -> (0 < c_n c)%nat -> c_wake c = true -> c_tmo c = false ->
-    (0 < k)%nat -> (k <= c_n c)%nat -> partial_count c k = false ->
-    forall s, reach step (parked c e [[ORings k]]) s -> quiescent s = true -> tiers_empty s = true.
+(* It also HOLDS for the ring fast path on the complement of the first finding's domain: scheduleBulkToRings(k) when the count covers
+   every affected wake group completely (partial_count c k = false: k - lastGroup*groupSize >= number of threads of the last group), for
+   ANY number of threads and groups, cascade-host tasks included, every schedule and every choice of futex waiters.  Invariant: a group is
+   either entirely in its initial wait or not at all; an in-flight wake of a still-pristine group carries a count >= the group size, so
+   the first FUTEX_WAKE that reaches a group wakes all of it; a ring is non-empty only while its owner is bound to pop it. *)
+Theorem C07_holds_except_ring : forall c, (0 < c_gs c)%nat -> (0 < c_n c)%nat -> c_wake c = true -> c_tmo c = false ->
+  forall k, (0 < k)%nat -> (k <= c_n c)%nat -> partial_count c k = false ->
+  forall e s, reach step (parked c e [[ORings k]]) s -> quiescent s = true -> tiers_empty s = true.
+Proof. exact no_quiescent_with_pending_ring. Qed.
+Print Assumptions C07_holds_except_ring.
+
+Theorem C07_ring_invariant : forall c, (0 < c_gs c)%nat -> (0 < c_n c)%nat -> c_wake c = true -> c_tmo c = false ->
+  forall k, (0 < k)%nat -> (k <= c_n c)%nat -> partial_count c k = false ->
+  forall e s, reach step (parked c e [[ORings k]]) s -> InvR c k s.
+Proof. exact ring_invariant. Qed.
+Print Assumptions C07_ring_invariant.
+
+(* Summary: from the clean fully parked pool the property holds for schedule(), scheduleBulkEnqueue(k) and scheduleBulkToRings(k) with
+   complete groups; it fails for scheduleBulkToRings(k) with a partially covered group (C07_refuted), for schedulePlaced (C07_refuted_placed),
+   and -- for every path that uses a masked wake -- from parked states that a previous claimAndWakeOne left desynchronised (C07_refuted_hidden). *)
 
 (* every state the executable scheduler visits is reachable, so the theorems apply to the runs compared with the real code *)
 Theorem C07_run_reach : forall fuel s0 sched, reach step s0 (fst (fst (run step cands finished fuel s0 sched []))).
@@ -93,7 +107,9 @@ Print Assumptions C07_run_reach.
 
 (* non-vacuity: from the clean parked 8-thread pool, schedule() and scheduleBulkEnqueue(6) reach quiescent states (all tiers empty) *)
 Example C07_nonvacuous :
-  central_path OSchedule = true /\ central_path (OBulk 6) = true /\
+  central_path OSchedule = true /\ central_path (OBulk 6) = true /\ partial_count ring_cfg 8 = false /\ partial_count (CFG 16 8 4 true 1 false) 8 = false /\
+  (let s := fst (fst (run step cands finished 900 (parked ring_cfg 0 [[ORings 8]]) (repeat 3 900) [])) in
+   quiescent s = true /\ tiers_empty s = true) /\
   (let s := fst (fst (run step cands finished 400 (parked ring_cfg 0 [[OSchedule]]) (repeat 3 400) [])) in
    quiescent s = true /\ tiers_empty s = true) /\
   (let s := fst (fst (run step cands finished 900 (parked ring_cfg 0 [[OBulk 6]]) (repeat 5 900) [])) in
